@@ -323,6 +323,7 @@ func probeCmd(a *hx.Args) error {
 	if a.Mode == "worker" {
 		return workerLoop(execProbe)
 	}
+	isolate = a.Mode == "isolate"
 	return supervise(a, "c18probe")
 }
 
@@ -376,7 +377,7 @@ func recordCmd(a *hx.Args) error {
 		if !results[i].OK {
 			r := results[i]
 			ex.Steps = nil
-			r.Extra = map[string]interface{}{"probe": probes[i], "findings": ex.Findings}
+			r.Extra = map[string]interface{}{"probe": probes[i], "findings": ex.Findings, "id": i}
 			bad = append(bad, r)
 		}
 	}
